@@ -58,10 +58,31 @@ type Hit struct {
 	// Wrapped is what a net/http handler adapted with fox.WrapF sees through fox.ParamsFromContext for the same request
 	// (route handlers only): the adapters promise the same parameters as Context.Params.
 	Wrapped []ref.Param `json:"wrapped,omitempty"`
+	// CloneWithDiff is non-empty when a context obtained with c.CloneWith(c.Writer(), c.Request()) inside the handler does not
+	// expose the same pattern and parameters as c itself (CloneWith copies come from the pool like every context).
+	CloneWithDiff string `json:"clone_with_diff,omitempty"`
+}
+
+// cloneWithDiff compares c with a CloneWith copy of it.
+func cloneWithDiff(c fox.Context) string {
+	cp := c.CloneWith(c.Writer(), c.Request())
+	defer cp.Close()
+	want, got := Collect(c), Collect(cp)
+	same := len(want) == len(got) && cp.Pattern() == c.Pattern() && (cp.Route() == nil) == (c.Route() == nil) && cp.Scope() == c.Scope()
+	for i := 0; same && i < len(want); i++ {
+		same = want[i] == got[i]
+	}
+	if same {
+		return ""
+	}
+	return fmt.Sprintf("c.CloneWith(c.Writer(), c.Request()) exposes pattern %q params %v scope %d, the context itself pattern %q params %v scope %d", cp.Pattern(), got, cp.Scope(), c.Pattern(), want, c.Scope())
 }
 
 // WrapMismatch describes a difference between Context.Params and the parameters handed to a wrapped net/http handler, "" if none.
 func (h Hit) WrapMismatch() string {
+	if h.CloneWithDiff != "" {
+		return h.CloneWithDiff
+	}
 	if h.Kind != "route" || len(h.Params) == 0 && len(h.Wrapped) == 0 {
 		return ""
 	}
@@ -102,19 +123,19 @@ type Router struct {
 func GlobalOptions(g Global, sink *Sink) []fox.GlobalOption {
 	opts := []fox.GlobalOption{
 		fox.WithNoRouteHandler(func(c fox.Context) {
-			sink.Hits = append(sink.Hits, Hit{Kind: "noroute", Pattern: c.Pattern(), Params: Collect(c), Scope: c.Scope(), RouteNil: c.Route() == nil})
+			sink.Hits = append(sink.Hits, Hit{Kind: "noroute", Pattern: c.Pattern(), Params: Collect(c), Scope: c.Scope(), RouteNil: c.Route() == nil, CloneWithDiff: cloneWithDiff(c)})
 			c.Writer().WriteHeader(http.StatusNotFound)
 		}),
 	}
 	if g.NoMethod {
 		opts = append(opts, fox.WithNoMethodHandler(func(c fox.Context) {
-			sink.Hits = append(sink.Hits, Hit{Kind: "nomethod", Pattern: c.Pattern(), Params: Collect(c), Scope: c.Scope(), RouteNil: c.Route() == nil})
+			sink.Hits = append(sink.Hits, Hit{Kind: "nomethod", Pattern: c.Pattern(), Params: Collect(c), Scope: c.Scope(), RouteNil: c.Route() == nil, CloneWithDiff: cloneWithDiff(c)})
 			c.Writer().WriteHeader(http.StatusMethodNotAllowed)
 		}))
 	}
 	if g.AutoOptions {
 		opts = append(opts, fox.WithOptionsHandler(func(c fox.Context) {
-			sink.Hits = append(sink.Hits, Hit{Kind: "options", Pattern: c.Pattern(), Params: Collect(c), Scope: c.Scope(), RouteNil: c.Route() == nil})
+			sink.Hits = append(sink.Hits, Hit{Kind: "options", Pattern: c.Pattern(), Params: Collect(c), Scope: c.Scope(), RouteNil: c.Route() == nil, CloneWithDiff: cloneWithDiff(c)})
 			c.Writer().WriteHeader(http.StatusOK)
 		}))
 	}
@@ -127,7 +148,7 @@ func GlobalOptions(g Global, sink *Sink) []fox.GlobalOption {
 	// observe the redirect handler without changing it
 	opts = append(opts, fox.WithMiddlewareFor(fox.RedirectHandler, func(next fox.HandlerFunc) fox.HandlerFunc {
 		return func(c fox.Context) {
-			sink.Hits = append(sink.Hits, Hit{Kind: "redirect", Pattern: c.Pattern(), Params: Collect(c), Scope: c.Scope(), RouteNil: c.Route() == nil})
+			sink.Hits = append(sink.Hits, Hit{Kind: "redirect", Pattern: c.Pattern(), Params: Collect(c), Scope: c.Scope(), RouteNil: c.Route() == nil, CloneWithDiff: cloneWithDiff(c)})
 			next(c)
 		}
 	}))
@@ -164,7 +185,7 @@ func EffectiveTS(g Global, r RouteSpec) int {
 // Handler returns the recording route handler for a pattern.
 func (s *Sink) Handler(pattern string) fox.HandlerFunc {
 	return func(c fox.Context) {
-		hit := Hit{Kind: "route", Pattern: c.Pattern(), Params: Collect(c), Scope: c.Scope(), RouteNil: c.Route() == nil}
+		hit := Hit{Kind: "route", Pattern: c.Pattern(), Params: Collect(c), Scope: c.Scope(), RouteNil: c.Route() == nil, CloneWithDiff: cloneWithDiff(c)}
 		fox.WrapF(func(_ http.ResponseWriter, r *http.Request) {
 			for _, p := range fox.ParamsFromContext(r.Context()) {
 				hit.Wrapped = append(hit.Wrapped, ref.Param{Key: p.Key, Value: p.Value})
